@@ -173,6 +173,7 @@ type Scenario struct {
 	Calls    []*Call
 	NeedTag  bool
 	NeedKf   bool
+	NeedFf   bool
 	OnlyHReq bool // every rule gets by with the injected names H and Req (the two-object pool method can be used)
 	DoMgmt   func(op int)
 }
@@ -203,6 +204,9 @@ func (sc *Scenario) Index() {
 			}
 			if s.Kind == SecConc && s.Arg&(1<<ChFunc) != 0 {
 				sc.NeedKf = true
+			}
+			if s.Kind == SecFuncCall || s.Kind == SecIfFunc {
+				sc.NeedFf = true
 			}
 		}
 	}
